@@ -168,6 +168,77 @@ def xml_dict(rng):
     return items
 
 
+# ---- xmlattr: mappings whose KEYS (and values) are not plain str ----------------------------
+# a typed key is [type label, JSON payload]; vt.checks.c24.make_key builds the object.  Every
+# forbidden character class (space / other whitespace, '/', '>', '=') occurs in the TEXT FORM of
+# several key types: tuples and datetimes and bytes (space), Fraction and PurePath ('/'),
+# tuples of strings and application objects with __str__ (any character).
+def typed_key(rng):
+    r = rng.randrange(16)
+    if r == 0:
+        return ["int", rng.choice([0, 1, 7, -1, 10**20])]
+    if r == 1:
+        return ["float", rng.choice([1.5, -0.5, 1e30, 0.0])]
+    if r == 2:
+        return rng.choice([["bool", True], ["bool", False], ["nonekey", None]])
+    if r == 3:
+        k = rng.randint(1, 3)
+        return ["tuple", [rng.choice(["a", "data-b", "x>y", "k=v", "a/b", "c d", "id"])
+                          for _ in range(k)]]
+    if r == 4:
+        return ["tuple", [rng.choice([1, 2, "a"]) for _ in range(rng.randint(1, 2))]]
+    if r == 5:
+        return ["frac", rng.choice([[1, 2], [3, 1], [-7, 3], [22, 7]])]
+    if r == 6:
+        return ["path", rng.choice(["a/b", "a", "data-x/onclick=alert(1)", "x y/z", "/abs", "a>b"])]
+    if r == 7:
+        return ["bytes", rng.choice(["ab", "a b", "a/b", "a=b", "a>b", "id"])]
+    if r == 8:
+        return rng.choice([["dt", [2020, 1, 2, 3, 4, 5]], ["date", [2020, 1, 2]],
+                           ["complex", [1, 2]]])
+    if r == 9:
+        label, text = rng.choice(["strsub", "strenum", "markup"]), xml_key(rng)
+        if label == "markup" and any(c in text for c in "<\"'&"):
+            label = "strsub"        # Markup is the author's explicit marking: not judged
+        return [label, text]
+    if r == 10:
+        return ["frozenset", [rng.choice(["a", "a b", "x=y"])]]
+    # an application object whose __str__ is the attribute name it stands for
+    return ["obj", xml_key(rng)]
+
+
+def xml_value_typed(rng):
+    r = rng.random()
+    if r < 0.5:
+        return xml_value(rng)
+    if r < 0.65:
+        return ["o", hostile(rng, 1, 5)]                    # object with __str__
+    if r < 0.78:
+        return ["l", [hostile(rng, 0, 3) for _ in range(rng.randint(0, 3))]]   # list of str
+    if r < 0.86:
+        return ["fr", rng.choice([[1, 3], [-5, 2]])]
+    if r < 0.93:
+        return ["by", hostile(rng, 0, 4)]                   # bytes
+    return ["s", hostile(rng, 0, 6)]
+
+
+def xml_dict_typed(rng):
+    """1-3 items; most keys are typed (non-str / str subclass), the others harmless str keys so
+    that a refusal is the typed key's."""
+    items = []
+    seen = []
+    for _ in range(rng.randint(1, 3)):
+        k = typed_key(rng) if rng.random() < 0.7 else rng.choice(KEY_SAFE)
+        if k in seen or k[-1] == "":
+            continue
+        seen.append(k)
+        v = xml_value_typed(rng)
+        if v[0] in ("none", "undef") and rng.random() < 0.7:
+            v = ["s", hostile(rng, 0, 4)]
+        items.append([k, v])
+    return items
+
+
 def nonce(rng, used):
     while True:
         n = str(rng.randint(10000, 99999))
